@@ -4,11 +4,11 @@
 set -u
 cd "$(dirname "$0")/.."
 what=$1; shift
-if ! git -C /repo diff --quiet; then echo "/repo has uncommitted changes; refusing"; exit 2; fi
+if ! git -C /repo diff --quiet HEAD; then echo "/repo has uncommitted changes; refusing"; exit 2; fi
 if [[ "$what" == -R:* ]]; then
   git -C /repo show "${what#-R:}" | git -C /repo apply -R || { echo "cannot reverse ${what#-R:}"; exit 2; }
 else
-  git -C /repo apply "$(realpath "$what")" || git -C /repo apply -3 "$(realpath "$what")" || { echo "cannot apply $what"; git -C /repo checkout -- .; exit 2; }
+  git -C /repo apply "$(realpath "$what")" || git -C /repo apply -3 "$(realpath "$what")" || { echo "cannot apply $what"; git -C /repo reset -q; git -C /repo checkout -- .; exit 2; }
 fi
 tier=${MUT_TIER:-quick}
 for p in "$@"; do
@@ -18,6 +18,6 @@ for p in "$@"; do
   if [ $rc -eq 1 ] && [ $nv -gt 0 ]; then echo "CAUGHT $p rc=$rc violations=$nv $cls"; else echo "MISSED $p rc=$rc violations=$nv $(echo "$out" | grep -E 'HARNESS|build failed' | head -2)"; fi
   [ -n "${MUT_VERBOSE:-}" ] && echo "$out" | grep -A3 '^VIOLATION' | head -${MUT_VERBOSE}
 done
-git -C /repo checkout -- . ; git -C /repo status --short | grep -v '^??' | head -3
+git -C /repo reset -q; git -C /repo checkout -- . ; git -C /repo status --short | grep -v '^??' | head -3
 # restore evidence written by the mutated run
 git checkout -- evidence 2>/dev/null
